@@ -36,8 +36,40 @@ pub struct Scenario {
     pub pay: Pay,
 }
 
-pub fn scenarios() -> Vec<Scenario> {
+pub fn scenarios(prop: &str) -> Vec<Scenario> {
     let mut v = Vec::new();
+    if prop == "C13" {
+        // timed operations: the deadline expires (clock jump) after the owner made i steps
+        // and the peer j steps of its own operation
+        for cap in [Cap::N(0), Cap::N(1)] {
+            for pay in [Pay::P4, Pay::P16, Pay::Z0] {
+                for owner in [K::SendTimeout, K::SendOptTimeout] {
+                    for peer in [
+                        vec![K::Recv],
+                        vec![K::TryRecv, K::TryRecv],
+                        vec![K::RecvTimeout],
+                        vec![K::Drain],
+                        vec![K::AsyncRecv],
+                        vec![K::Close],
+                        vec![K::DropH, K::DropH],
+                    ] {
+                        v.push(Scenario { owner, peer, cap, pay });
+                    }
+                }
+                for peer in [
+                    vec![K::Send],
+                    vec![K::TrySend, K::TrySend],
+                    vec![K::SendTimeout],
+                    vec![K::AsyncSend],
+                    vec![K::Close],
+                    vec![K::DropH, K::DropH],
+                ] {
+                    v.push(Scenario { owner: K::RecvTimeout, peer, cap, pay });
+                }
+            }
+        }
+        return v;
+    }
     for cap in [Cap::N(0), Cap::N(1)] {
         for pay in [Pay::P4, Pay::P16] {
             for peer in [
@@ -79,10 +111,11 @@ pub fn build_case(p: &Profile, sc: &Scenario, i: u32, j: u32) -> Case {
     cfg[3] = 0x55;
     cfg[4] = 0;
     cfg[5] = (i as u8).wrapping_mul(31).wrapping_add(j as u8);
-    // owner: first poll, Yield(2), Drop  (script nibbles 4, 6)
-    let mut owner_ops = vec![[byte_for(p, sc.owner), 0, 0x64, 0]];
-    // a full buffer for capacity 1 so that the send future really waits
-    if sc.owner == K::AsyncSend {
+    // owner: first poll, Yield(2), Drop  (script nibbles 4, 6); timed owners: 3 ticks
+    let timed = sc.owner.is_timed();
+    let mut owner_ops = vec![[byte_for(p, sc.owner), 0, if timed { 120 } else { 0x64 }, 0]];
+    // a full buffer for capacity 1 so that the send really waits
+    if sc.owner.is_send() {
         if let Cap::N(n) = sc.cap {
             for _ in 0..n {
                 owner_ops.insert(0, [byte_for(p, K::TrySend), 0, 0, 0]);
@@ -90,7 +123,7 @@ pub fn build_case(p: &Profile, sc: &Scenario, i: u32, j: u32) -> Case {
         }
     }
     // afterwards: nothing may be delivered into the dead future
-    owner_ops.push([byte_for(p, if sc.owner == K::AsyncSend { K::TrySend } else { K::TryRecv }), 0, 0, 0]);
+    owner_ops.push([byte_for(p, if sc.owner.is_send() { K::TrySend } else { K::TryRecv }), 0, 0, 0]);
     let peer_ops: Vec<[u8; 4]> = sc
         .peer
         .iter()
@@ -106,6 +139,10 @@ pub fn build_case(p: &Profile, sc: &Scenario, i: u32, j: u32) -> Case {
     }
     for _ in 0..j {
         sched.extend_from_slice(&[255u8, 0u8]);
+    }
+    if timed {
+        // back to the owner with the clock advanced by 14 ticks: the deadline has passed
+        sched.extend_from_slice(&[0u8, 0xB0u8]);
     }
     Case {
         cfg,
@@ -134,7 +171,7 @@ pub fn run_part(prop: &str, tier: &str, part: usize, parts: usize) {
     std::env::set_var("VERIF_CASE_TIER", "quick");
     let p = props::profile(prop, "quick");
     let (imax, jmax) = grid(tier);
-    let scs: Vec<Scenario> = scenarios().into_iter().enumerate().filter(|(i, _)| i % parts == part).map(|(_, s)| s).collect();
+    let scs: Vec<Scenario> = scenarios(prop).into_iter().enumerate().filter(|(i, _)| i % parts == part).map(|(_, s)| s).collect();
     let mut evaluations = 0u64;
     let mut nontrivial = 0u64;
     let mut claimed = 0u64;
@@ -147,13 +184,23 @@ pub fn run_part(prop: &str, tier: &str, part: usize, parts: usize) {
                 let o = run_case(prop, &case);
                 evaluations += 1;
                 let cls = |k: &str| o.classes.iter().find(|c| c.0 == k).map(|c| c.1).unwrap_or(0);
-                if cls("future_drop_polled") > 0 {
-                    nontrivial += 1;
-                    if samples.len() < 1 && cls("cancelled_but_delivered") + cls("recv_future_dropped_after_claim") > 0 {
-                        samples.push(o.sample.clone());
+                if prop == "C13" {
+                    if cls("timeout_while_registered") + cls("timed_success_after_deadline") > 0 {
+                        nontrivial += 1;
+                        if samples.is_empty() && cls("timed_success_after_deadline") > 0 {
+                            samples.push(o.sample.clone());
+                        }
                     }
+                    claimed += cls("timed_success_after_deadline") as u64;
+                } else {
+                    if cls("future_drop_polled") > 0 {
+                        nontrivial += 1;
+                        if samples.is_empty() && cls("cancelled_but_delivered") + cls("recv_future_dropped_after_claim") > 0 {
+                            samples.push(o.sample.clone());
+                        }
+                    }
+                    claimed += (cls("cancelled_but_delivered") + cls("recv_future_dropped_after_claim")) as u64;
                 }
-                claimed += (cls("cancelled_but_delivered") + cls("recv_future_dropped_after_claim")) as u64;
                 if !o.viols.is_empty() {
                     failure = Some((case, o));
                     break 'outer;
@@ -180,7 +227,7 @@ fn grid(tier: &str) -> (u32, u32) {
 pub fn run(prop: &str, tier: &str, seed: u64) -> i32 {
     let t0 = std::time::Instant::now();
     let (imax, jmax) = grid(tier);
-    let scs = scenarios();
+    let scs = scenarios(prop);
     let parts = 8usize;
     let exe = std::env::current_exe().expect("exe");
     let kids: Vec<_> = (0..parts)
@@ -246,13 +293,17 @@ pub fn run(prop: &str, tier: &str, seed: u64) -> i32 {
         code = 1;
     }
     let ev = json!({
-        "property_id": prop, "tier": tier, "seed": seed, "level": "fault_enumeration",
+        "property_id": prop, "tier": tier, "seed": seed, "level": if prop == "C15" { "fault_enumeration" } else { "exploration" },
         "coverage": {
             "engine": "conc-enumeration",
             "evaluations": evaluations,
             "distinct_nontrivial": nontrivial,
             "exhaustive": fail.is_none(),
-            "rule": format!("exhaustive grid: {} two-thread scenarios (future kind x peer operation(s) x capacity {{0,1}} x payload {{4,16 bytes}}) x owner progress i in 0..={} x peer progress j in 0..={} one-step schedule segments before the owner resumes and drops the future; every grid point is a distinct case; non-trivial = the future had been polled when it was dropped; {} grid points dropped it after a peer had already claimed it", scs.len(), imax, jmax, claimed),
+            "rule": if prop == "C13" {
+                format!("exhaustive grid: {} two-thread scenarios (timed operation x peer operation(s) x capacity {{0,1}} x payload {{4,16 bytes, zero-sized}}) x owner progress i in 0..={} x peer progress j in 0..={} one-step schedule segments, then the virtual clock jumps past the deadline and the owner resumes; every grid point is a distinct case; non-trivial = the deadline expired while the operation was registered (or it completed after its deadline because a peer had claimed it: {} grid points)", scs.len(), imax, jmax, claimed)
+            } else {
+                format!("exhaustive grid: {} two-thread scenarios (future kind x peer operation(s) x capacity {{0,1}} x payload {{4,16 bytes}}) x owner progress i in 0..={} x peer progress j in 0..={} one-step schedule segments before the owner resumes and drops the future; every grid point is a distinct case; non-trivial = the future had been polled when it was dropped; {} grid points dropped it after a peer had already claimed it", scs.len(), imax, jmax, claimed)
+            },
             "samples": samples,
             "inconclusive": 0,
             "dropped_after_claim": claimed,
@@ -264,7 +315,7 @@ pub fn run(prop: &str, tier: &str, seed: u64) -> i32 {
     std::env::set_var("VERIF_EVIDENCE_APPEND", "1");
     driver::write_evidence(prop, &ev);
     println!(
-        "{} {} engine=conc enumeration: {} grid points, {} with a polled future dropped ({} after a peer's claim), {:.1}s, exit {}",
+        "{} {} engine=conc enumeration: {} grid points, {} non-trivial ({} with the peer's claim racing the cancellation / deadline), {:.1}s, exit {}",
         prop, tier, evaluations, nontrivial, claimed, t0.elapsed().as_secs_f64(), code
     );
     code
